@@ -332,3 +332,15 @@ Theorem C02_sized_covers_partial :
   forall teq m, generate r s teq = Ok m -> by_value_acyclicb r s = true.
 Proof. exact ranked_implies_boolean. Qed.
 Print Assumptions C02_sized_covers_partial.
+
+(** from decidable conditions only ([wf_regb r], [supportedb r s]: the run-time hypothesis of
+    [C10_total_wf]; [Shape.root_freshb s]: the boolean for [root_fresh]): generation with the model's
+    own [types_equal] reports a duplicate path, or it yields a module whose items are free of
+    by-value cycles exactly when the boolean holds *)
+Theorem C02_sized_wf :
+  forall r s, wf_regb r = true -> supportedb r s = true -> Shape.root_freshb s = true ->
+  (exists p, generate r s (types_equal r) = Err (EDuplicatePath p)) \/
+  (exists m, generate r s (types_equal r) = Ok m /\
+             (by_value_acyclicb r s = true <-> forall n p, ~ walk (item_edge s m) n p p)).
+Proof. exact sized_wf. Qed.
+Print Assumptions C02_sized_wf.
